@@ -55,9 +55,21 @@ OkStream4(r) ==
        /\ DecodeStream(a, mb, part(7 + s1 + s2, s3), Len(dseg(3))) = <<dseg(3), 0>>
        /\ DecodeStream(a, mb, part(7 + s1 + s2 + s3, rest), Len(dseg(4))) = <<dseg(4), 0>>
 
+\* decoder side: an FSE-compressed description produced by the harness's independent encoder reads, by the
+\* specification, as exactly the explicit weights it was made from (and those form a complete code)
+OkFseDesc(r) == /\ r.desc[1] = Len(r.desc) - 1 /\ r.desc[1] < 128
+                /\ LET body == SubSeq(r.desc, 2, Len(r.desc))
+                       rd == F!ReadDesc(body)
+                       stream == SubSeq(body, rd.used + 1, Len(body))
+                       d == F!Decode2(rd.al, rd.probs, stream, Len(r.explicit))
+                   IN /\ rd.al = r.al /\ rd.al <= 6
+                      /\ d[1] = r.explicit /\ d[2] = 0
+                      /\ Complete(r.explicit)
+
 Ok(r) == CASE r.k = "code" -> OkCode(r) /\ OkDesc(r)
            [] r.k = "stream1" -> OkStream1(r)
            [] r.k = "stream4" -> OkStream4(r)
+           [] r.k = "fsedesc" -> OkFseDesc(r)
 
 VARIABLE x
 Init == x = 0
